@@ -2,6 +2,7 @@ import TinysetModel.Proofs.DenseRange
 import TinysetModel.Proofs.CapSpec
 import TinysetModel.Proofs.CoreInst
 import TinysetModel.Proofs.AnyOrderU
+import TinysetModel.Proofs.Ascend
 /-! C12 — dense sets of small integers cost about a bit per member.
 Proved: (a) `collect()` of `0..n` ends in the dense bitset whose block is `denseCap (n-1)` words — at most
 `n/4 + 64` bytes (2 bits per member + 64 bytes) — for every `64 ≤ n ≤ 2^31`, consuming no random draw.
@@ -10,8 +11,9 @@ Proved: (a) `collect()` of `0..n` ends in the dense bitset whose block is `dense
 `2 n + 256` bytes (`any_order_u64/u32`; sharper: `4n/7 + 88` resp. `6n/5 + 44`).  The proof is a ghost-bound
 induction through every branch of `insert` with the invariant "dense with a capacity bounded by `n`, or a bitmap
 table of width ≥ 42 (10) with at most `3·keys + 5` buckets, never the plain table".
-Not a theorem: the sharper "2 bits per member + 64 bytes" for ascending one-at-a-time insertion (only (b)'s bound is
-proved for it); the harness measures it. -/
+(a') Ascending one-at-a-time insertion of `0..n` (64 ≤ n ≤ 2^31): always returns, consumes no draw, ends in the dense
+layout with `cap ≤ 1 + K + K/4`, `K = (n-1)/64` (u32: `1 + (n-1)/32 + (n-1)/128`), block ≤ n/4 + 64 bytes.
+So every clause of the property is a theorem; the harness additionally measures allocator-observed footprints. -/
 namespace C12
 open SC
 
@@ -28,6 +30,16 @@ theorem collect_range_u32 (g : Rng D) (fuel : Nat) {n : Nat} (hn : 64 ≤ n) (hn
     ∃ r, fromIter cfg32 g (fuel + 1) (List.range n) d = .ok (r, d) ∧ len r = n ∧
       blockBytes cfg32 r = 4 * (1 + (n - 1) / 32 + (n - 1) / 128) + 12 ∧ blockBytes cfg32 r ≤ n / 4 + 64 :=
   collect_range_bytes32 g fuel hn hn' d
+
+/-- ascending insertion `0, 1, …, n-1`, one at a time: returns, no draw, exactly the members `< n`, ≤ n/4 + 64 bytes -/
+theorem ascending_u64 (g : Rng D) (fuel : Nat) (n : Nat) (hn : 64 ≤ n) (hn' : n ≤ 2 ^ 31) (d : D) :
+    ∃ r, insertAll (insert cfg64 g (fuel + 2)) .empty (List.range n) d = .ok (r, d) ∧ len r = n ∧
+      (∀ x, x ∈ elems cfg64 r ↔ x < n) ∧ blockBytes cfg64 r ≤ n / 4 + 64 :=
+  ascending_range_bytes64 g fuel n hn hn' d
+theorem ascending_u32 (g : Rng D) (fuel : Nat) (n : Nat) (hn : 64 ≤ n) (hn' : n ≤ 2 ^ 31) (d : D) :
+    ∃ r, insertAll (insert cfg32 g (fuel + 2)) .empty (List.range n) d = .ok (r, d) ∧ len r = n ∧
+      (∀ x, x ∈ elems cfg32 r ↔ x < n) ∧ blockBytes cfg32 r ≤ n / 4 + 64 :=
+  ascending_range_bytes32 g fuel n hn hn' d
 
 /-- the layout is the dense one (`bits = W`), with `n` members -/
 theorem collect_range_layout_u64 (g : Rng D) (fuel : Nat) {n : Nat} (hn : 64 ≤ n) (hn' : n ≤ 2 ^ 31) (d : D) :
